@@ -572,6 +572,9 @@ class C01(E2Prop):
             exp = expected_wire(case.role, case.seed, sent)
             last_ok = ots[-1].res == 'ok'
             has_pong = any(o.startswith('wpo') for o in case.ops)
+            for op, ot in zip(case.ops, ots):
+                if op == 'f' and ot.res == 'ok' and 'F:ok' not in ot.events:
+                    return 'flush-without-transport-flush: flush() returned Ok without a successful flush of the transport (events: %s)' % ' '.join(ot.events)[:80]
             if not has_pong:
                 if not exp.startswith(wire):
                     return 'wire-not-prefix: bytes accepted by the transport are not a prefix of the independently encoded messages'
@@ -793,6 +796,11 @@ class C11(E2Prop):
                             for tail_op in ('r', 'f'):
                                 ops = ['wb:' + ws.hx(bytes(range(dlen))), 'r', 'r'] + [tail_op] * 5
                                 out.append(ws.scase_line('q%d' % k, role, ops, ['d:' + ws.hx(pf)], ['e:wb'] * nblock + ['a:100000'] * 8, [], max_=mx)); k += 1
+                                # a second ping is read while the first pong is still parked: the newer pong replaces it and must go out
+                                pf2 = gen_e2.peer_frame(role, 9, ping + b'2')
+                                mx2 = max(mx, gen_e2.frame_size(role, len(ping) + 1))
+                                ops = ['wb:' + ws.hx(bytes(range(dlen))), 'r', 'r', 'r'] + [tail_op] * 5
+                                out.append(ws.scase_line('q%d' % k, role, ops, ['d:' + ws.hx(pf), 'd:' + ws.hx(pf2)], ['e:wb'] * (nblock + 1) + ['a:100000'] * 8, [], max_=mx2)); k += 1
         return reid(self.corpus() + out)
     def monitor(self, case_line, trace, mline):
         case, ots = self.parse(case_line, trace)
@@ -935,6 +943,16 @@ class C14(E2Prop):
                             b = gen_e2.frame_size(role, m)
                             ops = ['wb:' + ws.hx(bytes(range(n))), 'wb:' + ws.hx(bytes(range(m))), 'wb:' + ws.hx(bytes(range(m))), 'f', 'f', 'f']
                             out.append(ws.scase_line('pa%d' % k, role, ops, [], ['a:%d' % kacc, 'e:wb', 'e:wb', 'e:wb', 'a:100000', 'a:100000', 'a:100000'], [], wbs=0, max_=max(mx, b))); k += 1
+        # sockets built by from_partially_read with leftover bytes (a frame glued to the handshake) obey the configured sizes like any other
+        for role in 'sc':
+            lead = gen_e2.peer_frame(role, 1, b'ok')
+            for wbs, mx in ((0, 12), (0, 20), (10, 20), (20, 600), (9, 11)):
+                for n in (0, 5, 8):
+                    if gen_e2.frame_size(role, n) > mx: continue
+                    for wpat in (['e:wb'] * 4 + ['a:100000'] * 6, ['a:100000'] * 10):
+                        p_ = ws.hx(bytes(range(n)))
+                        ops = ['r', 'wb:' + p_, 'wb:' + p_, 'wt:6869', 'wb:' + p_, 'f', 'wb:' + p_, 'f', 'f']
+                        out.append(ws.scase_line('fp%d' % k, role, ops, [], wpat, [], wbs=wbs, max_=mx, pre=lead)); k += 1
         # set_config changes both sizes at run time: the new bound must be the one enforced
         for role in 'sc':
             fs = gen_e2.frame_size(role, 4)
